@@ -193,8 +193,15 @@ func unpackSVCBResource(msg []byte, off int, length uint16) (SVCBResource, error
 		return SVCBResource{}, &nestedError{"Priority", err}
 	}
 
+	targetOff := paramsOff
 	if paramsOff, err = r.Target.unpack(msg, paramsOff); err != nil {
 		return SVCBResource{}, &nestedError{"Target", err}
+	}
+	// The TargetName is not compressed (RFC 9460 section 2.2).
+	for i := targetOff; i < paramsOff; i += 1 + int(msg[i]) {
+		if msg[i]&0xC0 == 0xC0 {
+			return SVCBResource{}, &nestedError{"Target", errInvalidPtr}
+		}
 	}
 
 	// Two-pass parsing to avoid allocations.
